@@ -47,7 +47,7 @@ P["C10"] = {
 }
 
 P["C01"] = {
-    "lean_modules": ["Heathcliff.Props.C01", "Heathcliff.Proofs.C01EW", "Heathcliff.Proofs.C01LW"],
+    "lean_modules": ["Heathcliff.Props.C01", "Heathcliff.Proofs.C01EW", "Heathcliff.Proofs.C01LW", "Heathcliff.Proofs.C01VW", "Heathcliff.Proofs.C01XW", "Heathcliff.Proofs.C01YW"],
     "level": "proof",
     "runs": lambda tier, seed: [{"seed": seed}] if tier == "quick" else [{"seed": seed * 1000 + i} for i in range(4)],
     "search": lambda tier, seed: [{"seed": seed * 7919 + i} for i in range(2)],
